@@ -3,7 +3,7 @@ import re
 from . import facts as F
 from .evalmodel import EvalModel, value_of_resolve
 from .c08 import decision_pairs, variant_names, find_impl_body
-from .intervals import check_float_to_int_casts
+from .intervals import check_float_to_int_casts, check_int_to_int_casts
 from .report import Collector, expect_fixture_hits
 
 LEVEL = 'other'
@@ -68,6 +68,7 @@ def core_casts(fx, rep, value_ty):
                                                                  s['rv']['from'], s['rv']['to'], sum(1 for k in getattr(rep, 'inst', {}) if k[0] == 'R3' and 'lossy-cast/' in k[1] and F.loc_of(s['span']).split(':')[0] in '')),
                               F.loc_of(s['span']), 'comparison converts a %s to %s (`as`): integers above 2^53 lose precision, e.g. 9007199254740993 == 9007199254740992.0' % (s['rv']['from'], s['rv']['to']))
         check_float_to_int_casts(bb, rep, 'R3')
+        check_int_to_int_casts(bb, rep, 'R3')
     return n
 
 
@@ -298,4 +299,8 @@ def fixtures(ffx, rep):
                 if s['k'] == 'Assign' and s['rv']['k'] == 'Cast' and s['rv']['kind'] == 'IntToFloat' and s['rv']['from'] in ('i64', 'u64') and s['rv']['op']['k'] != 'Const':
                     col.violation('R3', 'lossy-cast/%s' % b.path, '-', '')
             check_float_to_int_casts(b, col, 'R3')
-    expect_fixture_hits(rep, col, {'R3': ['lossy-cast/verif_fixtures::c09::lossy_eq', 'unguarded-cast/verif_fixtures::c09::bad_cmp']})
+            check_int_to_int_casts(b, col, 'R3')
+    expect_fixture_hits(rep, col, {'R3': ['lossy-cast/verif_fixtures::c09::lossy_eq', 'unguarded-cast/verif_fixtures::c09::bad_cmp', 'unguarded-int-cast/verif_fixtures::c09::wrapping_eq',
+                                          'unguarded-int-cast/verif_fixtures::c09::closed_bound_eq']})
+    silent = [k for k in col.bad.get('R3', []) if '::good_' in k]
+    rep.check(not silent, 'fixture', 'R3/silent-on-guarded-twins', 'fixtures/', 'guarded twins accepted', 'a correctly guarded cast is rejected: %s' % silent)
